@@ -6,6 +6,9 @@ package chainsim
 
 import (
 	"fmt"
+	"sort"
+
+	"github.com/pokt-network/pocket-core/codec"
 
 	sdk "github.com/pokt-network/pocket-core/types"
 	appsTypes "github.com/pokt-network/pocket-core/x/apps/types"
@@ -25,6 +28,7 @@ func (s *Sim) interfere(q Interf, phase string) {
 	n := s.node
 	height := s.drv.Height + 1
 	before := TakeDump(n, height)
+	globalsBefore := codecGlobals()
 	subject := q.Kind
 	func() {
 		defer func() {
@@ -111,10 +115,30 @@ func (s *Sim) interfere(q Interf, phase string) {
 	}()
 	s.res.Fault("offchain_" + q.Kind + "@" + phaseClass(phase))
 	after := TakeDump(n, height)
+	// the protocol-version switches the node executes blocks under live in process globals
+	// (codec.UpgradeHeight, OldUpgradeHeight, UpgradeFeatureMap): they are part of what the next
+	// block builds on, although no store holds them
+	if g := codecGlobals(); g != globalsBefore {
+		s.violate("C11", "offchain-call-changed-node-globals", subject, fmt.Sprintf("height %d phase %s: %s changed the node's upgrade switches from %s to %s", height, phase, subject, globalsBefore, g))
+	}
 	if ch := Diff(before, after); len(ch) > 0 {
 		s.violate("C11", "offchain-call-changed-state", subject, fmt.Sprintf("height %d phase %s: %s changed the state the next block builds on: %s (+%d more)", height, phase, subject, ch[0], len(ch)-1))
 	}
 	s.res.Case(fmt.Sprintf("offchain/%s/%s", subject, phaseClass(phase)))
+}
+
+// codecGlobals renders the process-global protocol switches deterministically.
+func codecGlobals() string {
+	keys := make([]string, 0, len(codec.UpgradeFeatureMap))
+	for k := range codec.UpgradeFeatureMap {
+		keys = append(keys, k)
+	}
+	sort.Strings(keys)
+	out := fmt.Sprintf("upgrade=%d old=%d", codec.UpgradeHeight, codec.OldUpgradeHeight)
+	for _, k := range keys {
+		out += fmt.Sprintf(" %s:%d", k, codec.UpgradeFeatureMap[k])
+	}
+	return out
 }
 
 func phaseClass(p string) string {
